@@ -46,6 +46,7 @@ def setup():
     if os.path.isdir(DEPS) and DEPS not in sys.path:
         sys.path.append(DEPS)
     import rv  # noqa
+    import rv.api  # noqa  (importing submodules first trips rv's circular imports)
 
     here = os.path.realpath(rv.__file__)
     if not here.startswith(os.path.realpath(SRC) + os.sep):
